@@ -212,9 +212,61 @@ type heldVal struct {
 	idx  int
 }
 
+// spareSentinel is written by the recorder into the spare capacity (the elements between len and cap) of every []int it is
+// handed: that memory belongs to the receiver from then on (appending to a value one has received is ordinary use). An
+// operator that keeps filling the same backing array overwrites it (detected by aliasCheck), or later delivers it.
+const spareSentinel = -7777777
+
+// spareGuard: the same check for recorders that render a delivered value at once (kind=multib, kind=timed): the spare
+// capacity of every []int handed out is claimed, and must still be the receiver's at the end of the run.
+type spareGuard struct {
+	mu   sync.Mutex
+	held [][]int
+}
+
+func (g *spareGuard) claim(v any) {
+	s, ok := v.([]int)
+	if !ok || cap(s) == len(s) {
+		return
+	}
+	full := s[:cap(s)]
+	for i := len(s); i < len(full); i++ {
+		full[i] = spareSentinel
+	}
+	g.mu.Lock()
+	g.held = append(g.held, s)
+	g.mu.Unlock()
+}
+
+// bad: the operator wrote into the spare capacity of a value it had handed out, or delivered such memory again
+func (g *spareGuard) bad() bool {
+	g.mu.Lock()
+	defer g.mu.Unlock()
+	for _, s := range g.held {
+		for _, x := range s {
+			if x == spareSentinel {
+				return true
+			}
+		}
+		for _, x := range s[len(s):cap(s)] {
+			if x != spareSentinel {
+				return true
+			}
+		}
+	}
+	return false
+}
+
 func (r *Recorder) hold(v any) {
-	k := reflect.ValueOf(v).Kind()
+	rv := reflect.ValueOf(v)
+	k := rv.Kind()
 	if k == reflect.Slice || k == reflect.Map {
+		if s, ok := v.([]int); ok && cap(s) > len(s) {
+			full := s[:cap(s)]
+			for i := len(s); i < len(full); i++ {
+				full[i] = spareSentinel
+			}
+		}
 		r.mu.Lock()
 		r.held = append(r.held, heldVal{v, renderVal(v), len(r.trace)})
 		r.mu.Unlock()
@@ -228,6 +280,18 @@ func (r *Recorder) aliasCheck() string {
 	for _, h := range r.held {
 		if renderVal(h.v) != h.snap {
 			return strconv.Itoa(h.idx)
+		}
+		if s, ok := h.v.([]int); ok {
+			for _, x := range s {
+				if x == spareSentinel { // memory the receiver of an earlier value owned was delivered again
+					return "s" + strconv.Itoa(h.idx)
+				}
+			}
+			for _, x := range s[len(s):cap(s)] {
+				if x != spareSentinel { // the operator wrote into the spare capacity of a value it had handed out
+					return "c" + strconv.Itoa(h.idx)
+				}
+			}
 		}
 	}
 	return "ok"
